@@ -279,6 +279,37 @@ SEEDS = {
     'C20-lattice-size-clamp': ('C20', 'sizes clamped to [1, 12] on the server: coprime (13, 12) answered as 12 x 12', 'L = 12 with coprime dimensions',
                                'missed at first: send_code_data is evaluated at both ends of the lattice-size menu of main.js with coprime (R20.4)'),
     'C20-decoder-offer-stale-global': ('C20', 'send_decoder_names iterates the module-level decoder table while add_decoder fills the per-instance copy', 'add_decoder then /decoder-names', ''),
+    # ---- round 5 (20 changes, ten properties)
+    'C02-is-css-from-labels': ('C02', 'is_css decided from the Pauli letters of the generators: a generator made of Y only counts as one type', 'XY-deformed 2-D codes, user codes with pure-Y checks',
+                               'internal exception at first (the abstract CSS code had a matrix but no operators): operators derived from the rows, an all-Y matrix added to R02.2'),
+    'C02-block-slice-vacuous-guard': ('C02', 'Hx/Hz cut with slice(first row, last row + 1) behind a guard that tests increasing instead of consecutive', 'CSS code with interleaved X and Z rows (the 2-D colour codes)', ''),
+    'C04-success-fast-path-weight-below-d': ('C04', 'is_success returns True for undetected errors whose X and Z weights are both below d, without asking the logicals', 'deformed (non-CSS) code whose minimum-weight logical mixes X and Z',
+                                             'undecided: the success value depends on a comparison of uninterpreted weights; which of the two outcomes is wrong is not something the truth table can attribute to a feasible path'),
+    'C04-logical-effect-shared-buffer': ('C04', 'logical_errors returns one preallocated buffer: earlier results are overwritten by later calls', 'results of two calls held at the same time', ''),
+    'C05-uf-adjacent-defect-prepass': ('C05', 'union-find pre-pass flips qubits between lit neighbours and then ZEROES the touched checks instead of adding the syndrome of the flips', 'a defect with two lit neighbours', ''),
+    'C05-bposd-shared-decoder-colour-codes': ('C05', 'one ldpc decoder (built on Hx) shared for both sectors when the code id starts with Color', 'Color3DCode (Hx != Hz)', ''),
+    'C10-flip-edge-try-around-loop': ('C10', 'one try/except KeyError around the loop over the four faces: the first missing face aborts the remaining toggles', 'boundary edge of Planar3DCode', ''),
+    'C10-correction-dict-kept-on-give-up': ('C10', 'the correction dictionary lives on the decoder and is cleared on the converged exit only', 'a decode that runs out of sweeps, followed by another decode on the same object',
+                                            'reported by C06/C09 only at first: the decoder-state rule also runs in C10 (R10.2)'),
+    'C12-first-write-not-atomic': ('C12', 'save_json writes straight into the destination when no previous file exists', 'gzip output, killed during the very first checkpoint write', ''),
+    'C12-chunked-trials-overshoot': ('C12', 'trials run in chunks of save_frequency, clamped against the batch-wide start instead of each simulation', 'grown specification, raised target, save_frequency > 1', ''),
+    'C13-rates-rounded-six-decimals': ('C13', 'error rates rounded to six decimals when ranges are parsed', 'rates finer than 1e-6',
+                                       'missed at first: the tagged specification contains rates of the rare-event regime'),
+    'C13-append-skips-label-duplicates': ('C13', 'BatchSimulation.append skips a simulation whose labels equal those of one already appended (labels carry no decoder parameters)', 'two decoder parameter sets', ''),
+    'C15-mean-of-record-fractions': ('C15', 'p_est is the plain mean of per-record failure fractions', 'records of unequal length in one group', ''),
+    'C15-dedupe-identical-records': ('C15', 'read_files skips records whose inputs and arrays hash like one already read', 'two distinct runs with identical outcomes',
+                                     'undecided: read_files is interpreted on abstract file locations; the fingerprint is computed from values the interpretation does not have'),
+    'C16-label-abbreviates-containers': ('C16', 'get_label abbreviates long container-valued parameters: two families get one label and are fitted together', 'two parameter sets that differ late in a nested parameter',
+                                         'missed at first: get_label is evaluated on pairs that differ deep inside a container (R16.2)'),
+    'C16-find-files-accumulator-reset': ('C16', 'find_files resets its accumulator for every supplied path', 'a list of two or more locations',
+                                         'reported by C15 only at first: C16 includes the file-discovery obligations (R16.5)'),
+    'C19-shared-noise-dict-deferred-write': ('C19', 'one error-model dictionary shared by all queued specifications, files written afterwards', 'two or more bias ratios', ''),
+    'C19-lazy-map-exhausted-for-splitting': ('C19', 'codes and noise models as map objects: the second itertools.product (splitting method) finds them exhausted', 'method splitting',
+                                             'missed at first: map / filter / zip results and generator expressions are one-shot in the interpreter'),
+    'C20-numpy-int-in-representation': ('C20', 'triangle vertices of RhombicToricCode become np.int64: the JSON response fails', 'Rhombic Toric 3D',
+                                        'missed: the GUI rules compare the response with what the library returns, they do not type the values the library computes'),
+    'C20-random-errors-fast-path-yz-swapped': ('C20', 'send_random_errors samples with its own table in the order I, X, Z, Y', 'noise with different Y and Z rates',
+                                               'undecided: the handler no longer returns generate(code, p); the vectorised sampling is not followed'),
 }
 EXTRA_FILE = os.path.join(HERE, 'seeded', 'EXTRA.json')
 
